@@ -84,6 +84,10 @@ def run(ctx):
     # 4. the roothash application: commitments as transactions, blocks judged by the same rule
     seeds = [ctx.seed * 1000 + 700 + i for i in range(6 if q else 48)]
     alines, asums = cc.run_scenarios(ctx, seeds, 160 if q else 400, extra=["-validators", "5", "-maxgroup", "3"])
+    al2, as2 = cc.run_scenarios(ctx, [x + 300 for x in seeds[:max(2, len(seeds) // 3)]], 160 if q else 400,
+                                extra=["-vrf", "-epoch", "6", "-validators", "5", "-maxgroup", "3"])
+    alines += al2
+    asums += as2
     stats = {"normal": 0, "failed": 0, "epoch": 0, "suspended": 0, "disc_events": 0, "commits_accepted": 0, "commits_rejected": 0,
              "timers_seen": 0, "two_role_rounds": 0}
     last = {}
